@@ -810,6 +810,568 @@ def run_scripted(ctx, R, G, B):
     R.flush()
 
 
+# --------------------------------------------------------------------------
+# command line specifications through the real parser
+# --------------------------------------------------------------------------
+GUARD_NAME = {('simple', 'gnd'): 'gnd', ('simple', 'gnp'): 'gnp', ('simple', 'gnm'): 'gnm', ('simple', 'complete'): 'complete-simple',
+              ('simple', 'empty'): 'empty-simple', ('simple', 'grid'): 'grid', ('simple', 'torus'): 'torus',
+              ('bipartite', 'glrp'): 'glrp', ('bipartite', 'glrm'): 'glrm', ('bipartite', 'glrd'): 'glrd', ('bipartite', 'regular'): 'regular',
+              ('bipartite', 'shift'): 'shift', ('bipartite', 'complete'): 'complete-bipartite', ('bipartite', 'empty'): 'empty-bipartite',
+              ('dag', 'path'): 'path', ('dag', 'tree'): 'tree', ('dag', 'pyramid'): 'pyramid',
+              ('digraph', 'path'): 'path', ('digraph', 'tree'): 'tree', ('digraph', 'pyramid'): 'pyramid'}
+INHOUSE = {'glrm', 'glrd', 'regular', 'shift', 'complete-bipartite', 'empty-bipartite', 'empty-simple', 'path', 'tree', 'pyramid'}
+OPTION_FUNCS = [('modify_simple_graph_plantclique', 'plantclique'), ('modify_bipartite_graph_plantbiclique', 'plantbiclique'),
+                ('modify_graph_addedges', 'addedges'), ('modify_graph_splitedges', 'splitedges')]
+
+
+class Instrument:
+    """snapshots of the graph after the construction and after every option, with the number of draws made so far"""
+
+    def __init__(self, A, rec, stages):
+        self.A, self.rec, self.stages, self.saved = A, rec, stages, []
+
+    def snap(self, label, g):
+        self.stages.append((label, canon(g), len(self.rec.draws), consistent_object(g, canon(g))))
+        return g
+
+    def __enter__(self):
+        A = self.A
+        for ty, d in A.constructions.items():
+            for name, f in list(d.items()):
+                self.saved.append((d, name, f))
+                d[name] = (lambda f: lambda parsed: self.snap('base', f(parsed)))(f)
+        for attr, label in OPTION_FUNCS:
+            f = getattr(A, attr)
+            self.saved.append((None, attr, f))
+            setattr(A, attr, (lambda f, label: lambda parsed, g: self.snap(label, f(parsed, g)))(f, label))
+        return self
+
+    def __exit__(self, *exc):
+        for d, name, f in self.saved:
+            if d is None:
+                setattr(self.A, name, f)
+            else:
+                d[name] = f
+        return False
+
+
+def to_ints(toks):
+    try:
+        return [int(t) for t in toks]
+    except (ValueError, TypeError):
+        return None
+
+
+def to_float(t):
+    try:
+        return float(t)
+    except ValueError:
+        return None
+
+
+def expected_grid(dims, periodic):
+    nodes = list(itertools.product(*[range(d) for d in dims]))
+    edges = set()
+    for t in nodes:
+        for k, d in enumerate(dims):
+            if t[k] + 1 < d:
+                edges.add((t, t[:k] + (t[k] + 1,) + t[k + 1:]))
+            elif periodic and d >= 3:
+                edges.add((t[:k] + (0,) + t[k + 1:], t))
+    return nodes, edges
+
+
+def chk_grid(cg, dims, periodic):
+    import networkx
+    if not dims:
+        return None if (cg[1] == 1 and not cg[3]) else ('no dimension given: a graph with %d vertices is returned' % cg[1], 'no-dimension')
+    nodes, edges = expected_grid(dims, periodic)
+    e = chk_orders(cg, 'simple', len(nodes))
+    if e:
+        return e
+    if len(cg[3]) != len(edges):
+        return '%d edges, a %s of dimensions %r has %d' % (len(cg[3]), 'torus' if periodic else 'grid', dims, len(edges))
+    H = networkx.Graph()
+    H.add_nodes_from(nodes)
+    H.add_edges_from(edges)
+    K = networkx.Graph()
+    K.add_nodes_from(range(1, cg[1] + 1))
+    K.add_edges_from(map(tuple, cg[3]))
+    if sorted(d for _, d in H.degree()) != sorted(d for _, d in K.degree()):
+        return 'degree sequence differs from the %s of dimensions %r' % ('torus' if periodic else 'grid', dims)
+    if len(nodes) <= 30 and not networkx.is_isomorphic(H, K):
+        return 'not isomorphic to the %s of dimensions %r' % ('torus' if periodic else 'grid', dims)
+    return None
+
+
+def check_base(ty, cons, a, cg):
+    """CHECK (not proof) that the graph returned by a construction has the structure its name promises.
+    a: converted arguments (ints; p as float)."""
+    if ty == 'simple':
+        if cons == 'gnp':
+            n, p = a[0], a[1]
+            t = a[2] if len(a) == 3 else 1
+            if t != 1:
+                return prop_tnp(t, n, p)(cg)
+            e = chk_orders(cg, 'simple', n)
+            if e:
+                return e
+            if p == 0 and cg[3]:
+                return 'p = 0 but there are edges'
+            if p == 1 and len(cg[3]) != n * (n - 1) // 2:
+                return 'p = 1 but not complete'
+            return None
+        if cons == 'gnm':
+            return chk_orders(cg, 'simple', a[0]) or (None if len(cg[3]) == a[1] else '%d edges, not %d' % (len(cg[3]), a[1]))
+        if cons == 'gnd':
+            e = chk_orders(cg, 'simple', a[0])
+            if e:
+                return e
+            bad = [v for v, d in simple_degrees(cg).items() if d != a[1]]
+            return 'vertex %d does not have degree %d' % (bad[0], a[1]) if bad else None
+        if cons in ('grid', 'torus'):
+            return chk_grid(cg, a, cons == 'torus')
+        if cons == 'complete':
+            if len(a) == 1:
+                return chk_complete(cg, a[0])
+            n, b = a
+            e = chk_orders(cg, 'simple', n * b)
+            if e:
+                return e
+            if any((u - 1) // n == (v - 1) // n for u, v in cg[3]) or len(cg[3]) != n * n * b * (b - 1) // 2:
+                return 'not the complete multipartite graph with %d blocks of %d consecutive vertices' % (b, n)
+            return None
+        if cons == 'empty':
+            return chk_empty(cg, 'simple', a[0])
+    elif ty in ('dag', 'digraph'):
+        return {'path': chk_path, 'tree': chk_tree, 'pyramid': chk_pyramid}[cons](cg, a[0])
+    else:
+        if cons == 'glrp':
+            e = chk_orders(cg, 'bipartite', a[0], a[1])
+            if e:
+                return e
+            if a[2] == 0 and cg[3]:
+                return ('p = 0 but there are edges', 'p0-nonempty')
+            if a[2] == 1 and len(cg[3]) != a[0] * a[1]:
+                return 'p = 1 but not complete'
+            return None
+        if cons == 'glrm':
+            return chk_m_edges(cg, *a)
+        if cons == 'glrd':
+            return chk_left_regular(cg, *a)
+        if cons == 'regular':
+            return prop_regular(*a)(cg)
+        if cons == 'shift':
+            return chk_shift(cg, a[0], a[1], a[2:])
+        if cons == 'complete':
+            return chk_complete_bip(cg, *a)
+        if cons == 'empty':
+            return chk_empty(cg, 'bipartite', *a)
+    return 'no check for %s/%s' % (ty, cons)
+
+
+class CliRunner:
+    def __init__(self, ctx, G, A, tmp):
+        self.ctx, self.G, self.A, self.tmp = ctx, G, A, tmp
+        self.pending = []     # (inp, label, got, requests, compare)
+        self.nsave = 0
+
+    def viol(self, kind, what, inp, found, site, cls, **more):
+        self.ctx.disagreements_checked += 1
+        d = dict(input=inp)
+        d.update(more)
+        self.ctx.violation(kind, what, d, found, site=site, cls=cls)
+
+    def queue(self, inp, label, got, reqs, compare=agrees):
+        self.pending.append((inp, label, got, reqs, compare))
+
+    def run(self, ty, tokens, seed=None, bias=0.0, stream='cli', script=None):
+        ctx, A, G = self.ctx, self.A, self.G
+        seed = ctx.rng.getrandbits(48) if seed is None else seed
+        rec = Rec(seed, bias=bias, script=script)
+        stages = []
+        with Instrument(A, rec, stages):
+            res = with_random(rec, lambda: A.make_graph_from_spec(ty, list(tokens)))
+        draws = [d if not isinstance(d, tuple) else ['f', d[1]] for d in rec.draws]
+        inp = dict(graph_type=ty, spec=list(tokens), seed=seed, bias=bias, draws=draws)
+        ctx.count(stream, (ty, tuple(tokens), str(draws[:40]), len(draws)), True,
+                  sample=dict(graph_type=ty, spec=' '.join(tokens), outcome=res[1] if res[0] == 'exc' else 'graph'))
+        try:
+            parsed = A.parse_graph_argument(ty, list(tokens))
+        except Exception as e:  # noqa
+            parsed = None
+            perr = type(e).__name__
+        cons = parsed['construction'] if parsed else None
+        ctx.tally(stream + ' construction', '%s/%s' % (ty, cons))
+        ctx.tally(stream + ' outcome', res[1] if res[0] == 'exc' else 'graph')
+        # ---------- refusals and failures
+        if res[0] == 'exc' and res[1] not in ('ValueError', 'FileNotFoundError'):
+            site, cls = (cons or 'parse'), 'raises-' + res[1]
+            if parsed is None:
+                site = 'parse'
+            elif cons == 'glrm' and res[1] == 'TypeError':
+                site = 'glrm-dense'
+            elif stages:
+                site = [lab for (_a, lab) in OPTION_FUNCS if lab in parsed and lab not in [s[0] for s in stages]][:1]
+                site = site[0] if site else 'save'
+            self.viol('counterexample', 'the graph specification %r (%s) ends in %s (%s), not in a graph or a refusal with an error message' %
+                      (' '.join(tokens), ty, res[1], res[2][:80]), inp, True, site, cls, implementation=list(res))
+        if parsed is None:
+            return res
+        args_t = parsed['args'] or []
+        gname = GUARD_NAME.get((ty, cons))
+        if gname is None:
+            return res
+        # converted arguments, as obtain_* converts them
+        p_ok, pval, ints, conv = True, None, None, None
+        if gname == 'gnp':
+            if len(args_t) in (2, 3):
+                pval = to_float(args_t[1])
+                ints = to_ints([args_t[0]] + args_t[2:])
+                p_ok = pval is not None and 0 <= pval <= 1
+                conv = None if (ints is None or pval is None) else [ints[0], pval] + ints[1:]
+            else:
+                ints, p_ok = [], False
+        elif gname == 'glrp':
+            if len(args_t) == 3:
+                pval = to_float(args_t[2])
+                ints = to_ints(args_t[:2])
+                p_ok = pval is not None and 0 <= pval <= 1
+                conv = None if (ints is None or pval is None) else ints + [pval]
+            else:
+                ints, p_ok = [], False
+        else:
+            ints = to_ints(args_t)
+            conv = ints
+        base_failed = (res[0] == 'exc' and not stages)
+        ibase = stages[0][2] if stages else len(rec.draws)
+        if ints is None:
+            ctx.tally(stream + ' arguments', 'non-integer token')
+            if not (res[0] == 'exc' and res[1] == 'ValueError'):
+                self.viol('counterexample', 'a non-integer numeric token in %r is not refused with ValueError' % ' '.join(tokens), inp, True,
+                          gname, 'non-integer-accepted', implementation=list(res[:2]))
+            return res
+        ctx.tally(stream + ' arguments', 'integers')
+        # ---------- guard verdict against the model
+        verdict = 'refused' if (base_failed and res[1] == 'ValueError') else 'passed'
+        expected_late_refusal = (gname == 'torus' and all(d > 0 for d in ints) and 1 in ints)
+        if not expected_late_refusal:
+            names = ['gnd', 'gnd-spec'] if gname == 'gnd' else [gname]
+            self.queue(inp, 'guard', verdict, [cmd('gg_guard', n, ints, p_ok) for n in names],
+                       lambda got, rep: (rep is True and got == 'passed') or (rep is False and got == 'refused'))
+        # ---------- the construction itself
+        if stages:
+            base = stages[0][1]
+            if not all(s[3] for s in stages):
+                self.viol('counterexample', 'graph object inconsistent with its own edge list', inp, True, gname, 'object-inconsistent')
+            why = check_base(ty, cons, conv, base)
+            if why:
+                w, cls = why if isinstance(why, tuple) else (why, 'structure')
+                self.viol('counterexample', 'CHECK: %r (%s) returned a graph without the promised structure: %s' % (' '.join(tokens), ty, w),
+                          inp, True, 'grid-torus' if gname in ('grid', 'torus') else gname, cls, base_graph=base)
+        bits_stream = None
+        if gname in INHOUSE or (gname == 'complete-simple' and len(ints) == 1):
+            st = int_stream(rec.draws[:ibase])
+            if st is not None:
+                got = ('ok', stages[0][1]) if stages else res
+                self.queue(inp, 'construction', got, [cmd('gg_obtain', gname, ints, fl, 1200, st) for fl in
+                                                      ((False, True) if gname in ('glrm', 'regular') else (False,))])
+        elif gname == 'gnp' and len(ints) == 2 and ints[1] != 1 and p_ok and ints[0] > 0 and ints[1] > 0 and stages:
+            bits_stream = int_stream(rec.draws[:ibase], '<', pval)
+            self.queue(inp, 'construction', ('ok', stages[0][1]), [cmd('gg_tnp', ints[1], ints[0], bits_stream)])
+        elif gname == 'glrp' and p_ok and stages:
+            bits_stream = int_stream(rec.draws[:ibase], '<=', pval)
+            self.queue(inp, 'construction', ('ok', stages[0][1]), [cmd('gg_bip_random', ints[0], ints[1], True, bits_stream)])
+        if not stages:
+            return res
+        # ---------- options, stage by stage on the implementation, as a whole in the model
+        optargs = {}
+        nonint_opt = False
+        for _a, lab in OPTION_FUNCS:
+            if lab in parsed:
+                optargs[lab] = to_ints(parsed[lab])
+                nonint_opt = nonint_opt or optargs[lab] is None
+        prev = stages[0]
+        for stg in stages[1:]:
+            lab = stg[0]
+            if optargs.get(lab) is not None:
+                seg = [d for d in rec.draws[prev[2]:stg[2]] if not isinstance(d, tuple)]
+                why = judge_modify(lab, prev[1], stg[1], optargs[lab], seg)
+                if why:
+                    self.viol('counterexample', 'option %s %r of %r did not do what it names: %s' % (lab, optargs[lab], ' '.join(tokens), why),
+                              inp, True, lab, 'structure', before=prev[1], after=stg[1])
+            prev = stg
+        if nonint_opt:
+            if not (res[0] == 'exc' and res[1] == 'ValueError'):
+                self.viol('counterexample', 'a non-integer option argument in %r is not refused with ValueError' % ' '.join(tokens), inp, True,
+                          'option', 'non-integer-accepted')
+            return res
+        if res[0] == 'ok':
+            final = canon(res[1])
+            if final != stages[-1][1]:
+                self.viol('counterexample', 'the returned graph is not the graph after the last option', inp, True, 'obtain_graph', 'graph-changed')
+            got = ('ok', final)
+        else:
+            got = res
+        if got[0] == 'ok' or got[1] == 'ValueError':
+            plant = optargs.get('plantclique', optargs.get('plantbiclique'))
+            st = int_stream(rec.draws[ibase:])
+            if st is not None and not (got[0] == 'exc' and 'save' in parsed and len(stages) == 1 + len(optargs)):
+                self.queue(inp, 'options', got, [cmd('gg_modify', opt(plant), opt(optargs.get('addedges')), opt(optargs.get('splitedges')),
+                                                     sx_graph(stages[0][1]), st)])
+        # ---------- save
+        if res[0] == 'ok' and 'save' in parsed:
+            fmt, path = parsed['save']
+            if fmt == 'autodetect':
+                fmt = os.path.splitext(path)[1][1:]
+            self.nsave += 1
+            ctx.tally('save format', '%s/%s' % (ty, fmt))
+            try:
+                back = ('ok', canon(G.readGraph(path, ty, fmt)))
+            except Exception as e:  # noqa
+                back = ('exc', type(e).__name__, str(e)[:100])
+            if back[0] != 'ok' or back[1] != final:
+                self.viol('counterexample', "'save' did not store the graph that is returned (file re-read with readGraph)", inp, True,
+                          'save', 'graph-differs', saved=open(path).read()[:2000] if os.path.exists(path) else None, read_back=list(back))
+        return res
+
+    def flush(self):
+        ctx = self.ctx
+        reqs = [r for (_i, _l, _g, rs, _c) in self.pending for r in rs]
+        reps = ctx.model.batch(reqs) if reqs else []
+        k = 0
+        for (inp, label, got, rs, compare) in self.pending:
+            mine = reps[k:k + len(rs)]
+            k += len(rs)
+            if label == 'guard':
+                ok = any(compare(got, r) for r in mine)
+                shown = [r if isinstance(r, bool) else str(r) for r in mine]
+            else:
+                mods = [mod_outcome(r) for r in mine]
+                ok = any(compare(got, m) for m in mods)
+                shown = [list(m) for m in mods]
+            if ok:
+                continue
+            ctx.disagreements_checked += 1
+            ctx.violation('correspondence', 'command line %r: the %s differs from the model (GraphGen.v); the C15 theorems no longer cover the code'
+                          % (' '.join(inp['spec']), {'guard': 'ValueError verdict of the argument guard', 'construction': 'constructed graph',
+                                                     'options': 'graph after the options'}[label]),
+                          dict(input=inp, implementation=got if isinstance(got, str) else [list(x) if isinstance(x, (list, tuple)) else x for x in got],
+                               model=shown, correspondence='GraphGen.v <-> graph_build.py/' + label), False,
+                          site='cli-' + label, cls='model-differs')
+        self.pending = []
+
+
+def base_specs(rng, quick):
+    """(graph type, tokens of the construction, number of vertices or None) at and around the legal ranges"""
+    out = []
+
+    def add(ty, *toks):
+        out.append((ty, [str(t) for t in toks]))
+    # simple
+    for n in [0, 1, 2, 5, 9]:
+        for p in ['0', '0.3', '.5', '1', '1.0', '-0.1', '1.5']:
+            add('simple', 'gnp', n, p)
+            for t in [0, 1, 2, 3]:
+                if n <= 5:
+                    add('simple', 'gnp', n, p, t)
+    for n in [0, 1, 2, 4, 7, 11]:
+        mx = n * (n - 1) // 2
+        for m in sorted({-1, 0, 1, mx // 2, mx - 1, mx, mx + 1}):
+            add('simple', 'gnm', n, m)
+    for n in range(0, 10):
+        for d in range(-1, n + 2):
+            add('simple', 'gnd', n, d)
+    add('simple', 'gnd', 20, 3)
+    add('simple', 'gnd', 12, 12)
+    for dims in [[], [1], [2], [3], [7], [4, 3], [2, 2], [3, 3, 2], [1, 3], [5, 1], [0, 2], [-1], [2, 2, 2, 2], [2, 3, 4], [6, 6], [3, 1, 3]]:
+        add('simple', 'grid', *dims)
+        add('simple', 'torus', *dims)
+    for n in range(-1, 7):
+        add('simple', 'complete', n)
+        add('simple', 'empty', n)
+        for b in range(-1, 5):
+            if n <= 4:
+                add('simple', 'complete', n, b)
+    add('simple', 'complete')
+    add('simple', 'complete', 2, 2, 2)
+    add('simple', 'empty')
+    add('simple', 'empty', 2, 2)
+    add('simple', 'gnp', 3)
+    add('simple', 'gnp', 3, .5, 2, 2)
+    add('simple', 'gnm', 3)
+    add('simple', 'gnm', 3, 1, 1)
+    add('simple', 'gnd', 3)
+    add('simple', 'gnd', 4, 2, 1)
+    # dags
+    for ty in ('dag', 'digraph'):
+        for c in ('path', 'tree', 'pyramid'):
+            for h in [-1, 0, 1, 2, 3, 5]:
+                add(ty, c, h)
+            add(ty, c)
+            add(ty, c, 2, 2)
+    # bipartite
+    for L in [0, 1, 3, 5]:
+        for Rr in [0, 1, 2, 4]:
+            for p in ['0', '.4', '1', '1.2']:
+                add('bipartite', 'glrp', L, Rr, p)
+            add('bipartite', 'complete', L, Rr)
+            add('bipartite', 'empty', L, Rr)
+    for L in [0, 1, 2, 3, 6]:
+        for Rr in [0, 1, 2, 3, 7]:
+            t = L * Rr // 3
+            for m in sorted({-1, 0, 1, t, t + 1, L * Rr - 1, L * Rr, L * Rr + 1}):
+                add('bipartite', 'glrm', L, Rr, m)
+            for d in sorted({-1, 0, 1, Rr - 1, Rr, Rr + 1}):
+                add('bipartite', 'glrd', L, Rr, d)
+                if L * max(d, 0) <= 40:
+                    add('bipartite', 'regular', L, Rr, d)
+    for (L, Rr, d) in [(4, 2, 1), (3, 2, 1), (2, 4, 2), (6, 4, 2), (6, 9, 3), (8, 8, 3), (9, 6, 4), (5, 5, 5), (10, 4, 2)]:
+        add('bipartite', 'regular', L, Rr, d)
+    for L in [0, 1, 3, 6]:
+        for M in [0, 1, 3, 5]:
+            for pat in [[], [0], [1], [3, 1], [0, M], [2, 2], [M + 1], [-1], [1, 2, 3]]:
+                add('bipartite', 'shift', L, M, *pat)
+    add('bipartite', 'shift')
+    add('bipartite', 'shift', 3)
+    for c in ('glrp', 'glrm', 'glrd', 'regular', 'complete', 'empty'):
+        add('bipartite', c)
+        add('bipartite', c, 3)
+        add('bipartite', c, 3, 3, 1, 1)
+    return out
+
+
+def order_of(ty, toks):
+    """rough number of vertices of a valid specification (to choose option arguments near the limits)"""
+    try:
+        a = [int(float(t)) for t in toks[1:]]
+        c = toks[0]
+        if ty == 'simple':
+            return {'gnp': lambda: a[0] * (a[2] if len(a) > 2 else 1), 'gnm': lambda: a[0], 'gnd': lambda: a[0], 'empty': lambda: a[0],
+                    'complete': lambda: a[0] * (a[1] if len(a) > 1 else 1)}.get(c, lambda: 12)()
+        if ty == 'bipartite':
+            return (a[0], a[1])
+        return {'path': a[0] + 1, 'tree': 2 ** (a[0] + 1) - 1, 'pyramid': (a[0] + 1) * (a[0] + 2) // 2}[c]
+    except Exception:  # noqa
+        pass
+    return 12
+
+
+def with_options(rng, ty, toks, tmp, counter, force_save=False):
+    """append a random combination of the options of the graph type, in random order"""
+    n = order_of(ty, toks)
+    opts = []
+    if ty == 'simple':
+        n = n if isinstance(n, int) else 6
+        if rng.random() < 0.5:
+            opts.append(['plantclique', str(rng.choice([0, 1, 2, 3, n - 1, n, n + 1]))])
+        if rng.random() < 0.5:
+            opts.append(['addedges', str(rng.choice([0, 1, 2, 5, n, n * n]))])
+        if rng.random() < 0.5:
+            opts.append(['splitedges', str(rng.choice([0, 1, 2, 3, n, 3 * n]))])
+    elif ty == 'bipartite':
+        L, Rr = n if isinstance(n, tuple) else (3, 3)
+        if rng.random() < 0.5:
+            opts.append(['plantbiclique', str(rng.choice([0, 1, L, L + 1])), str(rng.choice([0, 1, Rr, Rr + 1]))])
+        if rng.random() < 0.6:
+            opts.append(['addedges', str(rng.choice([0, 1, 2, L, L * Rr, L * Rr + 1]))])
+    if force_save or rng.random() < 0.3:
+        fmts = {'simple': ['kthlist', 'dimacs', 'gml'], 'dag': ['kthlist', 'dimacs', 'gml'], 'digraph': ['kthlist', 'dimacs', 'gml'],
+                'bipartite': ['kthlist', 'matrix', 'gml']}[ty]
+        small = (n if isinstance(n, int) else sum(n)) < 7     # dot: ten or more vertices are renumbered when read back (C14, D9)
+        if small and rng.random() < 0.15 and not any(o[0] == 'splitedges' for o in opts):
+            fmts = ['dot']
+        fmt = rng.choice(fmts)
+        counter[0] += 1
+        path = os.path.join(tmp, 'g%d.%s' % (counter[0], fmt))
+        opts.append(['save', fmt, path] if rng.random() < 0.5 else ['save', path])
+    rng.shuffle(opts)
+    return toks + [t for o in opts for t in o]
+
+
+MALFORMED = [
+    ('simple', ['gnm', '3', '1.5']), ('simple', ['gnm', '3', '1e0']), ('simple', ['gnm', '3', 'nan']), ('simple', ['gnm', 'inf', '1']),
+    ('simple', ['gnm', '1e3', '1']), ('simple', ['gnp', '3', 'nan']), ('simple', ['gnp', '3', 'inf']), ('simple', ['gnp', '3.0', '.5']),
+    ('simple', ['gnp', '3', '.5', '2.0']), ('simple', ['gnd', '4', '2.0']), ('simple', ['gnd', '4.5', '2']), ('simple', ['grid', '3', '2.5']),
+    ('simple', ['torus', '3', '1e1']), ('simple', ['complete', '3.0']), ('simple', ['complete', '3', '2.0']), ('simple', ['empty', '1e1']),
+    ('simple', ['gnm', '3', '1', 'plantclique', '1.0']), ('simple', ['gnm', '3', '1', 'plantclique', 'nan']), ('simple', ['gnm', '3', '1', 'addedges', '1.5']),
+    ('simple', ['gnm', '3', '1', 'splitedges', '1e0']), ('simple', ['gnm', '3', '1', 'plantclique']), ('simple', ['gnm', '3', '1', 'plantclique', '1', '2']),
+    ('simple', ['gnm', '3', '1', 'addedges']), ('simple', ['gnm', '3', '1', 'addedges', '1', '1']), ('simple', ['gnm', '3', '1', 'splitedges']),
+    ('simple', ['gnm', '3', '1', 'splitedges', '1', '1']), ('simple', ['gnm', '3', '1', 'addedges', '-1']), ('simple', ['gnm', '3', '1', 'splitedges', '-1']),
+    ('simple', ['gnm', '3', '1', 'plantclique', '-1']),
+    ('simple', ['gnm', '3', '1', 'save']), ('simple', ['gnm', '3', '1', 'save', 'kthlist']), ('simple', ['gnm', '3', '1', 'save', 'x.unknownext']),
+    ('simple', ['gnm', '3', '1', 'save', 'matrix', 'x.matrix']), ('simple', ['gnm', '3', '1', 'addedges', '1', 'addedges', '1']),
+    ('simple', ['gnm', '3', '1', 'gnm', '3', '1']), ('simple', ['gnm', '3', '1', 'simple']), ('simple', ['gnm', '3', '1', '-x']),
+    ('simple', ['gnm', '3', '1', 'plantbiclique', '1', '1']), ('simple', []), ('simple', ['glrm', '3', '3', '1']), ('simple', ['path', '3']),
+    ('simple', ['matrix', 'x.matrix']), ('simple', ['kthlist']),
+    ('dag', ['tree', '2', 'addedges', '1']), ('dag', ['tree', '2.0']), ('dag', ['pyramid', 'nan']), ('dag', ['path', '1e1']), ('dag', ['gnp', '3', '.5']),
+    ('digraph', ['tree', '2', 'plantclique', '1']), ('digraph', ['path', '2', 'splitedges', '1']),
+    ('bipartite', ['glrm', '3', '3', '1.5']), ('bipartite', ['glrm', '3.0', '3', '1']), ('bipartite', ['glrd', '3', '3', '1e0']),
+    ('bipartite', ['regular', '3', '3', 'nan']), ('bipartite', ['shift', '3', '3', '1.5']), ('bipartite', ['shift', '3.0', '3']),
+    ('bipartite', ['complete', '2', '2.0']), ('bipartite', ['empty', '2.0', '2']), ('bipartite', ['glrp', '3', '3', 'x']),
+    ('bipartite', ['glrm', '3', '3', '1', 'splitedges', '1']), ('bipartite', ['glrm', '3', '3', '1', 'plantclique', '1']),
+    ('bipartite', ['glrm', '3', '3', '1', 'plantbiclique', '1']), ('bipartite', ['glrm', '3', '3', '1', 'plantbiclique', '1', '1', '1']),
+    ('bipartite', ['glrm', '3', '3', '1', 'plantbiclique', '1.0', '1']), ('bipartite', ['glrm', '3', '3', '1', 'plantbiclique', '-1', '1']),
+    ('bipartite', ['glrm', '3', '3', '1', 'addedges', '1.0']), ('bipartite', ['glrm', '3', '3', '1', 'save', 'dimacs', 'x.dimacs']),
+    ('bipartite', ['gnd', '4', '2']), ('bipartite', ['dimacs', 'x']),
+    # an empty-string token (DESIGN.md D25)
+    ('simple', ['gnm', '3', '1', '']), ('bipartite', ['glrm', '3', '3', '1', '']),
+]
+
+
+def run_cli(ctx, G, A, quick):
+    rng = ctx.rng
+    tmp = tempfile.mkdtemp(prefix='c15-')
+    C = CliRunner(ctx, G, A, tmp)
+    counter = [0]
+    try:
+        specs = base_specs(rng, quick)
+        reps = 1 if quick else 4
+        for (ty, toks) in specs:
+            C.run(ty, toks, bias=rng.choice([0, 0, 0.5]))
+            for _ in range(reps):
+                C.run(ty, with_options(rng, ty, toks, tmp, counter), bias=rng.choice(BIASES))
+        # every construction with a valid argument tuple x every subset of the options, and 'save' in every format
+        valid = [('simple', ['gnp', '6', '.4']), ('simple', ['gnp', '3', '.5', '2']), ('simple', ['gnm', '6', '5']), ('simple', ['gnd', '6', '3']),
+                 ('simple', ['grid', '3', '2']), ('simple', ['torus', '3', '3']), ('simple', ['complete', '4']), ('simple', ['complete', '2', '3']),
+                 ('simple', ['empty', '5']), ('bipartite', ['glrp', '3', '4', '.5']), ('bipartite', ['glrm', '3', '4', '3']),
+                 ('bipartite', ['glrm', '3', '4', '9']), ('bipartite', ['glrd', '3', '4', '2']), ('bipartite', ['regular', '4', '2', '1']),
+                 ('bipartite', ['shift', '4', '5', '0', '2']), ('bipartite', ['complete', '2', '3']), ('bipartite', ['empty', '2', '3']),
+                 ('dag', ['path', '4']), ('dag', ['tree', '2']), ('dag', ['pyramid', '3']), ('digraph', ['pyramid', '2'])]
+        for (ty, toks) in valid:
+            for _ in range(4 if quick else 24):
+                C.run(ty, with_options(rng, ty, toks, tmp, counter, force_save=rng.random() < 0.5), bias=rng.choice(BIASES))
+        # larger random instances
+        for _ in range(40 if quick else 500):
+            ty = rng.choice(['simple', 'bipartite', 'bipartite'])
+            if ty == 'simple':
+                n = rng.randint(2, 14)
+                toks = rng.choice([['gnm', str(n), str(rng.randint(0, n * (n - 1) // 2))], ['gnp', str(n), rng.choice(['.2', '.7'])],
+                                   ['complete', str(n)], ['empty', str(n)], ['grid', str(rng.randint(1, 4)), str(rng.randint(1, 4))],
+                                   ['gnp', str(rng.randint(1, 4)), '.5', str(rng.randint(2, 4))]])
+            else:
+                L, Rr = rng.randint(1, 10), rng.randint(1, 10)
+                d = rng.randint(0, Rr)
+                toks = rng.choice([['glrm', str(L), str(Rr), str(rng.randint(0, L * Rr))], ['glrd', str(L), str(Rr), str(d)],
+                                   ['regular', str(L * Rr), str(Rr), str(d)] if L * Rr * d <= 150 else ['glrd', str(L), str(Rr), str(d)],
+                                   ['glrp', str(L), str(Rr), '.3'], ['shift', str(L), str(Rr)] + [str(x) for x in sorted(rng.sample(range(Rr + 1), min(Rr, 2)))]])
+            C.run(ty, with_options(rng, ty, toks, tmp, counter), bias=rng.choice(BIASES))
+        C.flush()
+        # malformed specifications
+        for (ty, toks) in MALFORMED:
+            toks = [os.path.join(tmp, t) if t.startswith('x.') else t for t in toks]
+            res = C.run(ty, toks, stream='malformed')
+            if res[0] == 'ok':
+                C.viol('counterexample', 'the malformed graph specification %r (%s) is accepted' % (' '.join(toks), ty),
+                       dict(graph_type=ty, spec=toks), True, 'malformed', 'accepted')
+        C.flush()
+        ctx.note('save files re-read: %d' % C.nsave)
+    finally:
+        for f in os.listdir(tmp):
+            os.unlink(os.path.join(tmp, f))
+        os.rmdir(tmp)
+
+
 def run(ctx):
     import_impl()
     import cnfgen.graphs as G
@@ -818,4 +1380,47 @@ def run(ctx):
     R = Runner(ctx)
     run_samplers(ctx, R, G, B, quick)
     run_scripted(ctx, R, G, B)
+    import cnfgen.clitools.graph_args as A
+    run_cli(ctx, G, A, quick)
     ctx.exhaustive = False
+
+
+def replay(ctx, rp):
+    """re-run one recorded case with its seed and bias (the recorder is deterministic), or with its draws as a script"""
+    import_impl()
+    import cnfgen.graphs as G
+    import cnfgen.clitools.graph_build as B
+    import cnfgen.clitools.graph_args as A
+    inp = rp.get('input', {})
+    seed, bias = inp.get('seed'), inp.get('bias', 0.0)
+    script = None
+    if seed is None and 'draws' in inp:
+        script = [d[1] if isinstance(d, list) else d for d in inp['draws']]
+    if 'spec' in inp:
+        tmp = tempfile.mkdtemp(prefix='c15-')
+        try:
+            C = CliRunner(ctx, G, A, tmp)
+            spec = inp['spec'].split() if isinstance(inp['spec'], str) else inp['spec']
+            C.run(inp['graph_type'], spec, seed=seed, bias=bias, stream='replay', script=script)
+            C.flush()
+        finally:
+            for f in os.listdir(tmp):
+                os.unlink(os.path.join(tmp, f))
+            os.rmdir(tmp)
+        return
+    R = Runner(ctx)
+    a = inp.get('args', [])
+    mk = {'bipartite_random_m_edges': lambda: case_m_edges(G, *a, stream='replay'),
+          'bipartite_random_left_regular': lambda: case_left_regular(G, *a, stream='replay'),
+          'bipartite_random_regular': lambda: case_regular(G, *a, stream='replay'),
+          'bipartite_shift': lambda: case_shift(G, a[0], a[1], a[2], stream='replay'),
+          'bipartite_random': lambda: case_bip_random(G, *a, stream='replay'),
+          'multipartite_tnp': lambda: case_tnp(B, *a, stream='replay')}
+    name = inp.get('call')
+    if name in mk:
+        R.run(mk[name](), seed=seed, bias=bias, script=script)
+    elif name in ('plantclique', 'plantbiclique', 'addedges', 'splitedges'):
+        R.run(case_modify(G, B, name, inp['graph'], inp['option_args'], stream='replay'), seed=seed, bias=bias, script=script)
+    elif name:
+        R.run(case_fixed(G, name, tuple(a), stream='replay'), seed=seed, bias=bias, script=script)
+    R.flush()
